@@ -204,8 +204,13 @@ def generate(rng, tier):
             sup[a] += d
             sup[b] -= d
         case = {"kind": "ns", "n": n, "arcs": arcs, "supplies": sup}
-        if rng.random() < 0.15:
-            case["ns_max_iter"] = rng.choice([1, 1, 2, 3, 5])  # an iteration budget that may run out before optimality is proven
+        z = rng.random()
+        if z < 0.1:
+            case["ns_max_iter"] = rng.choice([0, 1, 1, 2, 3, 5])  # an iteration budget that may run out before optimality is proven
+        elif z < 0.6:
+            case["ns_max_iter"] = "sweep"  # the run is cut at every iteration budget below what it needs
+        if rng.random() < 0.3:
+            case["ns_shared"] = True  # the caller keeps its arc / supply lists and asks a second time with the same objects
         return case
     used = sorted({a[0] for a in arcs} | {a[1] for a in arcs})
     s, t = rng.sample(used, 2)
@@ -287,13 +292,16 @@ def judge_mcf(case, o, labels, tag, opt):
     return res
 
 
-def judge_ns(case, o, n, arcs, supplies, opt):
+def judge_ns(case, o, n, arcs, supplies, opt, max_iter=None, shared=None):
+    """`shared` = (arc list, supply list) objects handed to the solver as they are - a caller asking again with the very same
+    objects (what an earlier call may have done to them is part of the history); otherwise fresh copies."""
     m = solvor_mod("network_simplex")
     key = dict(target="network_simplex", **features(arcs))
     try:
         with budget.steps(STEP_LIMIT):
-            kw = {"max_iter": case["ns_max_iter"]} if case.get("ns_max_iter") and case["kind"] == "ns" else {}
-            res = m.network_simplex(n, [tuple(a) for a in arcs], list(supplies), **kw)
+            kw = {"max_iter": max_iter} if max_iter is not None else {}
+            a_obj, s_obj = shared if shared is not None else ([tuple(a) for a in arcs], list(supplies))
+            res = m.network_simplex(n, a_obj, s_obj, **kw)
     except budget.StepBudgetExceeded:
         o.violate(PROP, "no_return", f"network_simplex did not return within {STEP_LIMIT} events", **key)
         return None
@@ -399,11 +407,26 @@ def execute(case) -> Outcome:
     arcs = [tuple(a) for a in case["arcs"]]
     if case["kind"] == "ns":
         opt = flowref.mcf_supplies(n, arcs, case["supplies"])
-        res = judge_ns(case, o, n, case["arcs"], case["supplies"], opt)
+        budgets = case.get("ns_max_iter")
+        shared = ([tuple(a) for a in case["arcs"]], list(case["supplies"])) if case.get("ns_shared") else None
+        res = judge_ns(case, o, n, case["arcs"], case["supplies"], opt, max_iter=budgets if isinstance(budgets, int) else None, shared=shared)
         o.trace.append(["ns", opt, None if res is None else [res.status.name, repr(res.objective)]])
         if res is not None:
             o.steps += res.iterations
             o.nontrivial = res.iterations >= 2
+        if shared is not None and res is not None and not o.violations:
+            # the same caller asks again with the same list objects: the answer is judged like the first one
+            r2 = judge_ns(case, o, n, case["arcs"], case["supplies"], opt, max_iter=budgets if isinstance(budgets, int) else None, shared=shared)
+            o.probe("ns_asked_twice_with_the_same_objects")
+            o.trace.append(["ns-again", None if r2 is None else [r2.status.name, repr(r2.objective)]])
+        if budgets == "sweep" and res is not None and not o.violations and res.status.name != "MAX_ITER":
+            # every iteration budget below what the unlimited run needed (all of them up to 16, else a spread): whatever is
+            # returned at that cut is judged - MAX_ITER claims nothing, any other status is a verdict
+            t = res.iterations
+            cuts = list(range(0, t + 1)) if t <= 16 else sorted({0, 1, 2, t - 2, t - 1, t} | {(t * k) // 11 for k in range(1, 11)})
+            for b in cuts:
+                rb = judge_ns(case, o, n, case["arcs"], case["supplies"], opt, max_iter=b)
+                o.trace.append(["ns-cut", b, None if rb is None else [rb.status.name, repr(rb.objective)]])
         return o
     opt = flowref.mcf_st(n, arcs, case["s"], case["t"], case["demand"])
     answers = []
